@@ -292,9 +292,12 @@ def _mk_new(kind):
         if isinstance(sh.kind, KTuple):
             sh = shape_list(eng, [V(KInt, eng.as_int(i, st)) for i in tuple_items(sh)])
         if kind == 'empty':
-            val = eng.fresh_term(M, 'uninit')
-        else:
-            val = mf('full', LS, R, M)(sh.term, z3.RealVal(1 if kind == 'ones' else 0))
+            # uninitialised storage: arbitrary content, different for every allocation, nameable through the
+            # storage id of the new tensor (uninit(t.sid) in contracts)
+            sid = fresh_sid(eng, st)
+            val = mf('uninit', I, M)(sid)
+            return new_tensor(eng, st, val, sh, tf(eng, st, recv, 'dtype'), tf(eng, st, recv, 'device'), sid=sid)
+        val = mf('full', LS, R, M)(sh.term, z3.RealVal(1 if kind == 'ones' else 0))
         return like(eng, st, recv, val, shape=sh)
     return fn
 
@@ -388,9 +391,45 @@ def _zero_(eng, st, recv, args, kwargs):
     return _fill_(eng, st, recv, [V(KInt, z3.IntVal(0))], {})
 
 
+def _index_tensor(eng, st, e):
+    v = eng.eval(e, st)
+    if not is_tensor(v):
+        if isinstance(v.kind, KRef) and v.kind.cls is None:
+            v = V(KRef('Tensor'), v.term)
+        else:
+            raise Unsupported(f'tensor index {ast.unparse(e)}')
+    return v
+
+
+def tensor_setitem(eng, st, base, sl, value, transposed=False):
+    """base[i0, i1] = value with two index tensors (index_put_): writes base's storage in place.
+    transposed=True: the write goes through base.transpose(0, 1), i.e. base[i1, i0] = value."""
+    if not (isinstance(sl, ast.Tuple) and len(sl.elts) == 2 and not any(isinstance(e, ast.Slice) for e in sl.elts)):
+        raise Unsupported(f'tensor item assignment [{ast.unparse(sl)}]')
+    i0, i1 = (_index_tensor(eng, st, e) for e in sl.elts)
+    if not is_tensor(value):
+        raise Unsupported('tensor item assignment of a non-tensor')
+    put = mf('put2', M, M, M, M, M)
+    cur = tv(eng, st, base)
+    if transposed:
+        new = mf('tr', M, M)(put(mf('tr', M, M)(cur), tv(eng, st, i0), tv(eng, st, i1), tv(eng, st, value)))
+    else:
+        new = put(cur, tv(eng, st, i0), tv(eng, st, i1), tv(eng, st, value))
+    eng.write_field(st, base, 'val', V(KMat, new), cls='Tensor')
+
+
 def tensor_getitem(eng, st, base, node):
-    """t[:, :-1], t[:, -1:] (column blocks, views) and t[i] on tuples of index tensors."""
+    """t[:, :-1], t[:, -1:] (column blocks, views), t[k] (row k), t[i0, i1] with two index tensors (gather)."""
     sl = node.slice
+    if isinstance(sl, ast.Constant) and isinstance(sl.value, int) and not isinstance(sl.value, bool):
+        # row k of a 2-D tensor (a view): shape = shape[1:]
+        k = sl.value
+        cols = dim(eng, st, base, 1)
+        return like(eng, st, base, mf('row', M, I, M)(tv(eng, st, base), z3.IntVal(k)), shape=shape_list(eng, [cols]), view=True)
+    if isinstance(sl, ast.Tuple) and len(sl.elts) == 2 and not any(isinstance(e, ast.Slice) for e in sl.elts):
+        i0, i1 = (_index_tensor(eng, st, e) for e in sl.elts)
+        val = mf('gather2', M, M, M, M)(tv(eng, st, base), tv(eng, st, i0), tv(eng, st, i1))
+        return like(eng, st, base, val, shape=tf(eng, st, i0, 'shape'))
     if isinstance(sl, ast.Tuple) and len(sl.elts) == 2 and all(isinstance(e, ast.Slice) for e in sl.elts):
         r, c = sl.elts
         if r.lower is None and r.upper is None and c.step is None:
@@ -719,3 +758,18 @@ def _unflatten(eng, st, args, kwargs):
                                                                lhs == allsum(z3.Select(H, ListOps(ts.kind).at(L, i)), g)),
                                    patterns=[lhs]))
     return out
+
+
+@builtin('torch.triu_indices')
+def _triu_indices(eng, st, args, kwargs):
+    """2 x K tensor of the (row, column) indices of the upper triangle (from diagonal `offset`), row-major."""
+    r = eng.as_int(args[0], st)
+    c = eng.as_int(args[1], st)
+    off = eng.as_int(args[2], st) if len(args) > 2 else (eng.as_int(kwargs['offset'], st) if 'offset' in kwargs else z3.IntVal(0))
+    val = mf('triuidx', I, I, I, M)(r, c, off)
+    k = z3.If(off == 0, mf('tri_numel', I, I, I)(r, c), mf('tri_numel_off', I, I, I, I)(r, c, off))
+    dv = kwargs.get('device')
+    dev = dv if (dv is not None and dv.kind != KNone) else V(KDevice, z3.IntVal(1))
+    eng.assumptions.add('torch.triu_indices / advanced indexing t[i0, i1] / index assignment are uninterpreted operations '
+                        '(triuidx, gather2, put2); their element-level meaning is the axiom group "triu" used by the C14 lemmas')
+    return new_tensor(eng, st, val, shape_list(eng, [z3.IntVal(2), k]), V(KDType, z3.IntVal(5)), dev)
